@@ -13,7 +13,12 @@ def well_formed(S, a):
     names = [ax.name for ax in axes]
     if len(axes) != len(shape) or not all(isinstance(n, str) and n for n in names) or len(set(names)) != len(names):
         return False
-    return S.land(True, *[S.land(len(S.shape(ax.values)) == 1, S.n(ax.values) == shape[d]) for d, ax in enumerate(axes)])
+    def one(d, ax):
+        if type(ax).__name__ == "MultiAxis":
+            # a grouped axis builds its labels lazily (MultiAxisLabels: bounded stand-in); its length is the product of its members'
+            return ax.size == shape[d]
+        return S.land(len(S.shape(ax.values)) == 1, S.n(ax.values) == shape[d])
+    return S.land(True, *[one(d, ax) for d, ax in enumerate(axes)])
 
 
 def wf_clauses(S, result):
@@ -362,6 +367,51 @@ class NestedDict(Contract):
             (result.values == ref.values) | (np.isnan(result.values.astype(float)) & np.isnan(ref.values))))
 
 
+class MultiAxisCache(Contract):
+    """BOUNDED STAND-IN ONLY (never counted as proved).  The second cache of the library: a grouped axis (MultiAxis) builds its
+    tuple labels lazily and keeps them.  After  query -- relabel a member axis (ax[i] = v, ax.values = new) -- query  the
+    grouped axis must answer like a freshly built one over the same members.  Evaluated on the real code (the label tuples are
+    built by Python-level code outside the symbolic engine's reach).  [C05]"""
+    target = "dimarray.core.axes:MultiAxis"
+    props = ("C05",)
+    native_only = True
+
+    def cases(self, tier):
+        for mut in ("none", "member-setitem", "member-values-setter"):
+            for queried in (True, False):
+                yield {"name": "%s-%s" % (mut, "queried" if queried else "unqueried"), "mut": mut, "queried": queried}
+
+    def setup(self, S, case):
+        L0, L1 = S.array1d("m0", "f"), S.array1d("m1", "f")
+        S.assume(S.n(L0) >= 1, "first member non-empty")
+        return {"L": [L0, L1], "v": S.real("v")}
+
+    def call(self, fn, env):
+        import importlib
+        S, case = env["S"], env["case"]
+        MultiAxis = importlib.import_module("dimarray.core.axes").MultiAxis
+        members = [S.da.Axis(L.copy(), "g%d" % i) for i, L in enumerate(env["L"])]
+        g = MultiAxis(*members)
+        if case["queried"]:
+            g.values
+        if case["mut"] == "member-setitem":
+            members[0][0] = env["v"]
+        elif case["mut"] == "member-values-setter":
+            members[0].values = members[0].values[::-1].copy()
+        env["members"] = members
+        return g
+
+    def known_regions(self, S, case, env):
+        # open finding: the grouped labels are not rebuilt when a member axis is relabelled after they were first read
+        return {"member-relabelled-after-the-labels-were-read": case["queried"] and case["mut"] != "none"}
+
+    def post(self, S, case, env, result):
+        import importlib
+        MultiAxis = importlib.import_module("dimarray.core.axes").MultiAxis
+        fresh = MultiAxis(*[S.da.Axis(m.values.copy(), m.name) for m in env["members"]])
+        yield "answers-like-a-freshly-built-grouped-axis", list(result.values) == list(fresh.values) and int(result.size) == int(fresh.size)
+
+
 # ---- every DimArray RETURNED by an operation under contract is well-formed ---------------------------------------------
 def wf_only(cls):
     """the contract `cls` with its postcondition replaced by `every returned DimArray is well-formed` (same cases, same setup,
@@ -389,12 +439,12 @@ def wf_only(cls):
 
 
 def _make_all():
-    from . import bases, align, reshape, transform, join, missing
+    from . import bases, align, reshape, transform, join, missing, regroup
     out = []
     for cls in (bases.GetItem, align.TakeAxis, align.ReindexAxis, align.SortAxis, align.Align,
                 reshape.Transpose, reshape.SwapAxes, reshape.RollAxis, reshape.NewAxis, reshape.Squeeze, reshape.Repeat,
                 transform.Reduce, transform.Cumulative, transform.ArgExtremum, transform.Diff,
-                join.Stack, join.Concatenate,
+                join.Stack, join.Concatenate, regroup.Flatten, regroup.Unflatten, regroup.Reshape,
                 missing.FillNa, missing.SetNa, missing.CompressAxis, missing.DropNa1D):
         out.append(wf_only(cls))
     return out
